@@ -7,6 +7,7 @@ import (
 var _ interface {
 	FS
 	MountFS
+	RenameFS
 } = &subFS{}
 
 type subFS struct {
@@ -38,4 +39,20 @@ func (fs *subFS) Mount(p string) (mount FS, subPath string) {
 		return fs.rootFS, p
 	}
 	return fs.rootFS, path.Join(fs.basePath, p)
+}
+
+// Rename implements RenameFS: both names are resolved below the view's base directory,
+// so renaming through the view is renaming in the parent at base/oldname and base/newname.
+func (fs *subFS) Rename(oldname, newname string) error {
+	if !ValidPath(oldname) || !ValidPath(newname) {
+		return &LinkError{Op: "rename", Old: oldname, New: newname, Err: ErrInvalid}
+	}
+	_, oldSubPath := fs.Mount(oldname)
+	_, newSubPath := fs.Mount(newname)
+	err := Rename(fs.rootFS, oldSubPath, newSubPath)
+	if linkErr, ok := err.(*LinkError); ok {
+		// name the paths as the caller gave them
+		return &LinkError{Op: linkErr.Op, Old: oldname, New: newname, Err: linkErr.Err}
+	}
+	return err
 }
